@@ -1,3 +1,4 @@
+import FluentProofs.ConstTieResolver
 import FluentProofs.Props.C14
 import FluentModel.Resolver
 /-!
